@@ -46,6 +46,8 @@ fn n_foreign(tier: &str) -> u64 {
 #[derive(Debug)]
 struct HashListPolicy {
     name: String,
+    /// first byte of every filter this policy writes (its format version)
+    marker: u8,
 }
 
 impl HashListPolicy {
@@ -64,14 +66,14 @@ impl FilterPolicy for HashListPolicy {
         self.name.clone()
     }
     fn create_filter(&self, keys: &[Vec<u8>]) -> Vec<u8> {
-        let mut out = vec![0xEEu8];
+        let mut out = vec![self.marker];
         for k in keys {
             out.extend_from_slice(&Self::hash(k).to_le_bytes());
         }
         out
     }
     fn key_may_match(&self, key: &[u8], serialized_filter: &[u8]) -> Result<bool, raindb::filter_policy::FilterPolicyError> {
-        if serialized_filter.first() != Some(&0xEE) || (serialized_filter.len() - 1) % 4 != 0 {
+        if serialized_filter.first() != Some(&self.marker) || (serialized_filter.len() - 1) % 4 != 0 {
             // not one of ours: whatever it lists, this key is not known to be in it
             return Ok(false);
         }
@@ -392,9 +394,13 @@ fn case_foreign_policy(out: &mut CaseOut, seed: u64, idx: u64) {
         }
     }
     let bloom = |bits: usize| -> Arc<dyn FilterPolicy> { Arc::new(BloomFilterPolicy::new(bits)) };
-    let list = |name: &str| -> Arc<dyn FilterPolicy> { Arc::new(HashListPolicy { name: name.to_string() }) };
+    let list = |name: &str| -> Arc<dyn FilterPolicy> { Arc::new(HashListPolicy { name: name.to_string(), marker: 0xEE }) };
+    // a renamed successor with another filter format ("append a version when the format changes")
+    let list2 = |name: &str| -> Arc<dyn FilterPolicy> { Arc::new(HashListPolicy { name: name.to_string(), marker: 0xED }) };
     // names sorting before and after "RainDB.BloomFilter"
-    let (writer, reader, pair): (Arc<dyn FilterPolicy>, Arc<dyn FilterPolicy>, &str) = match idx % 8 {
+    let (writer, reader, pair): (Arc<dyn FilterPolicy>, Arc<dyn FilterPolicy>, &str) = match idx % 10 {
+        9 => (list2("M.HashList2"), list("M.HashList"), "written-by-a-successor-whose-name-extends-the-readers"),
+        8 => (list("M.HashList"), list2("M.HashList2"), "written-by-a-predecessor-whose-name-is-a-prefix-of-the-readers"),
         7 => (Arc::new(VersionedPolicy { writes: 1, reads: 1 }), Arc::new(VersionedPolicy { writes: 2, reads: 2 }), "same-name/reader-reports-an-error-for-the-stored-filters"),
         6 => (Arc::new(NoFilteringPolicy), Arc::new(NoFilteringPolicy), "policy-with-empty-filters"),
         0 => (bloom(10), list("Audit.HashList"), "bloom-written/read-by-earlier-name"),
